@@ -1,19 +1,18 @@
 import Geo.Props.C20
-open Geo
-#print axioms T20_det2
-#print axioms T20_det3_sarrus
-#print axioms T20_det_model
-#print axioms T20_thresholds
-#print axioms T20_adj2
-#print axioms T20_adj_sign_slices
-#print axioms T20_mul_adjugate_2
-#print axioms T20_mul_adjugate_3
-#print axioms T20_mul_adjugate_4
-#print axioms T20_inv_general
-#print axioms T20_hat3
-#print axioms T20_roots_linear
-#print axioms T20_roots_quadratic
-#print axioms T20_roots_depressed
-#print axioms T20_roots_cardano
-#print axioms T20_roots_trig
-#print axioms T20_roots_triple
+#print axioms Geo.T20_det2
+#print axioms Geo.T20_det3_sarrus
+#print axioms Geo.T20_det_model
+#print axioms Geo.T20_thresholds
+#print axioms Geo.T20_adj2
+#print axioms Geo.T20_adj_sign_slices
+#print axioms Geo.T20_mul_adjugate_2
+#print axioms Geo.T20_mul_adjugate_3
+#print axioms Geo.T20_mul_adjugate_4
+#print axioms Geo.T20_inv_general
+#print axioms Geo.T20_hat3
+#print axioms Geo.T20_roots_linear
+#print axioms Geo.T20_roots_quadratic
+#print axioms Geo.T20_roots_depressed
+#print axioms Geo.T20_roots_cardano
+#print axioms Geo.T20_roots_trig
+#print axioms Geo.T20_roots_triple
